@@ -6,6 +6,7 @@
 #include <stdlib.h>
 #include <string.h>
 #include <stdint.h>
+#include <unistd.h>
 
 #define TABLE_BITS 16
 #define TABLE_SIZE (1u << TABLE_BITS)
@@ -221,6 +222,16 @@ void vf_abort(const char *msg)
     if (c->jb) longjmp(*c->jb, 1);
     fprintf(stderr, "vf: uncaptured ABORT: %s\n", c->abort_msg);
     abort();
+}
+
+void vf_exit(int code)
+{
+    char buf[64];
+    snprintf(buf, sizeof buf, "library called exit(%d)", code);
+    tctx_t *c = ctx();
+    if (c->jb) vf_abort(buf);
+    fprintf(stderr, "vf: %s outside a guarded call\n", buf);
+    _exit(code & 0xff);
 }
 
 int vf_try(void (*fn)(void *), void *arg)
